@@ -319,6 +319,7 @@ def _run_entry_no_restore(ctx, entry, opts):
 
 class CallerEnvEngine:
     NAME = "caller-env"
+    RUN_TIMEOUT_S = 600
     LEVEL = "fault_enumeration"
     RULE = (
         "one run = a caller program of 3-12 catalogue operations (public entry points); per operation the PRNG picks each argument's memory "
